@@ -529,6 +529,17 @@ def inline_helpers(doc, log):
                         body = _rename_one(body, t_["p"], p_["name"], bool(p_.get("mut")))
                     out.extend(body)
                     changed = done = True
+                elif r is not None and r[1] is not None and not under_try and s["pat"].get("k") == "pstruct" and r[1].get("k") == "struct" \
+                        and all(isinstance(f_, list) and len(f_) == 2 and isinstance(f_[1], dict) and f_[1].get("k") == "pident" for f_ in s["pat"].get("fields", [])) \
+                        and all(isinstance(f_, list) and len(f_) >= 2 and isinstance(f_[1], dict) and f_[1].get("k") == "path" for f_ in r[1].get("fields", [])) \
+                        and {f_[0] for f_ in s["pat"]["fields"]} <= {f_[0] for f_ in r[1]["fields"]}:
+                    # `let S { a: x, b: y } = helper(..)` where the helper ends in `S { a, b }` built from its own locals
+                    body, tail = r
+                    vals = {f_[0]: f_[1]["p"] for f_ in tail["fields"]}
+                    for f_ in s["pat"]["fields"]:
+                        body = _rename_one(body, vals[f_[0]], f_[1]["name"], bool(f_[1].get("mut")))
+                    out.extend(body)
+                    changed = done = True
                 elif r is not None and r[1] is not None and not under_try:
                     body, tail = r
                     if tail.get("k") == "path" and s["pat"].get("k") == "pident" and any(x.get("k") == "pident" and x.get("name") == tail["p"] for x in walk(body)):
